@@ -392,6 +392,13 @@ def rule_D6b(repo: Repo) -> RuleResult:
         ev.run(ch.across, {"func_name": cs(eff)})
         tgt = [r for r in ev.calls if isinstance(r.callee, FuncRef)
                and r.callee.funcs[0].qualname == "_build_target_for_groupby"]
+        if len(tgt) == 0:
+            res.bad(ch.across, ch.across.node, f"chunked merge target for {eff!r}: not built by _build_target_for_groupby",
+                    "the array the per-chunk partial results are merged into is not allocated by _build_target_for_groupby (with the "
+                    "reduction's own initial / null value): slots that never receive a value - the trailing null-key slot, groups without a "
+                    "selected row - then keep whatever the allocation holds (0 from np.zeros: 0.0 or the epoch instead of NaN / NaT with "
+                    "transform=True)")
+            continue
         if len(tgt) != 1:
             raise AnalysisError("D6b: merge target allocation not found in the chunked path")
         b = bind_call(ev, tgt[0], tgt[0].callee.funcs[0])
@@ -967,6 +974,8 @@ def rule_D9(repo: Repo) -> RuleResult:
             if not isinstance(st, ast.Assign):
                 continue
             tn = [t.id for t in st.targets if isinstance(t, ast.Name)]
+            # kwargs["mask"] = ..: the mask as it will be bound into the worker arguments
+            tn += ["mask" for t in st.targets if isinstance(t, ast.Subscript) and isinstance(t.slice, ast.Constant) and t.slice.value == "mask"]
             if not (set(tn) & {"mask", "indexer"}):
                 continue
             v = st.value
